@@ -29,7 +29,7 @@ TOUR = [
  "x = a | b ^ c & d << e >> f + g - h * i / j // k % l\n", "x = (a, ), (a, b), [a], [a, b, ], {a}, {a, b, }, {a: b}, {a: b, c: d, }, (), [], {}\n", "x = a.b.c(d)[e].f\n",
  "x = 0, 1, 0x1F, 0o17, 0b101, 0XfF, 0O7, 0B1, 1., .5, 1e3, 1E-3, 1.5e+10, 0., 00, 0e0, 1j, 1.5J, .5j, 1e2j, 123456789012345678901234567890\n",
  "x = 'a', \"b\", '''c''', \"\"\"d\"\"\", 'a' 'b', b'a', B'b', r'\\n', R'\\n', rb'\\x', br'\\x', Rb'a', bR'a', u'a', U'b', 'a\\nb', '\\x41\\101\\u0041\\U00000041', '\\\\', '\\'', \"\\\"\", '''a\nb''', 'a\\\nb'\n",
- "x = 'é', '日本', '\\N{BULLET}', b'\\xff\\377'\n", "x = None, True, False, ..., Ellipsis\n", "pass; pass\npass;\n", "x = (\n  1,\n  2\n)\ny = [\n]\n", "x = 1 + \\\n  2\n",
+ "x = 'é', '日本', 'a\\u00e9b'\n", "x = '\\N{BULLET}'\n", "x = b'\\x7f\\177'\n", "x = None, True, False, ..., Ellipsis\n", "pass; pass\npass;\n", "x = (\n  1,\n  2\n)\ny = [\n]\n", "x = 1 + \\\n  2\n",
  "if a:\n\tb\n\tif c:\n\t\td\n", "if a:\n  b\n  if c:\n       d\n  e\n", "def f():\n    pass\n\n\n\ndef g():\n    pass\n", "# comment only\n", "x = 1 # trailing\n# between\ny = 2\n", "\n\n\nx = 1\n\n\n",
  "'''doc'''\n", "def f():\n    '''doc'''\n    return\n", "x = yield_ = 1\n", "for i in 1, 2, 3: pass\n", "for i in *a, b: pass\n" , "x = [*a]\n", "print(a, end='')\n", "exec('a')\n", "nonlocal_ = async_ = await_ = 1\n",
 ]
